@@ -26,15 +26,15 @@ func init() {
 		decided: "R1 the six callback lists are invoked (or handed to a helper) only within startWithListenerFds, Instance.Restart, Instance.ShutdownCallbacks and the functions these were split into, and ShutdownCallbacks is reachable only through the once-guarded signal path; R6 the lifecycle traces: with oracle callbacks in all six lists and every step failing in turn (44 cases), first-startup callbacks run only when neither upgrading nor restarting, startup callbacks before the servers start, restart callbacks before the new instance starts, the old instance's stop and shutdown callbacks only after it, restart-failed callbacks exactly when the reload failed before the new instance was up, and ShutdownCallbacks runs every shutdown and final-shutdown callback once, in order; " +
 			"R2 a reload hands the old instance's wait group to the new instance; R3 SIGTERM runs callbacks, then Stop, then exits; " +
 			"R4 once the new instance has started, Restart cannot return the old instance or report failure; " +
-			"R5 whichever step of a start fails, the instance is gone from the instance list when the error is returned, so process shutdown never runs callbacks of an instance that never went live. Since round 4: R1 by references: every use of the six list fields lies in the lifecycle functions or is a registration. R2 and R4 from the lifecycle traces (shared wait group; success once the new instance is up; the reload hands over a non-nil socket table).",
-		notDecided: "histories longer than one start, one reload or one shutdown (the traces are per call); panics inside callbacks; exactly-once under concurrent signals beyond the sync.Once guard.",
+			"R5 whichever step of a start fails, the instance is gone from the instance list when the error is returned, so process shutdown never runs callbacks of an instance that never went live. Since round 4: R1 by references: every use of the six list fields lies in the lifecycle functions or is a registration. R2 and R4 from the lifecycle traces (shared wait group; success once the new instance is up; the reload hands over a non-nil socket table). Since round 7: the start-up traces include steps that panic (the instance is unlisted then too).",
+		notDecided: "histories longer than one start, one reload or one shutdown (the traces are per call); panics inside callbacks other than during start-up; exactly-once under concurrent signals beyond the sync.Once guard.",
 	})
 	register("C07", &propSpec{
 		technique: "static analysis: must-pass / guard-edge ordering in Restart and startServers, loop-exit analysis of Instance.Stop, who-may-call (Shutdown vs Close), wait-group pairing; lifecycle trace tables (E10) for startup-before-serving",
 		run:       runC07,
 		decided: "R1 the old instance is stopped only after the new one started successfully, and the success return follows that stop; R2 on reload a listener is opened with Listen/ListenPacket only when no inherited descriptor produced one, inherited ones come from the old listener's File(); " +
 			"R3 servers stop through http.Server.Shutdown under the connection-drain timeout (never Close), and Instance.Stop visits every server (no early exit); R4 every wait-group Add is matched by the same number of Done calls on all paths; " +
-			"R5 in every evaluated trace of startWithListenerFds (oracle callbacks, every failing step) the servers start after the last startup callback and not at all when one fails. Since round 4: R1 from the lifecycle traces: the old servers are stopped only after the new instance started, never when starting failed. R2 as a table of startServers: a server inherits the socket registered under its own address and nothing else, and calls Listen exactly when nothing was inherited.",
+			"R5 in every evaluated trace of startWithListenerFds (oracle callbacks, every failing step) the servers start after the last startup callback and not at all when one fails. Since round 4: R1 from the lifecycle traces: the old servers are stopped only after the new instance started, never when starting failed. R2 as a table of startServers: a server inherits the socket registered under its own address and nothing else, and calls Listen exactly when nothing was inherited. Since round 7: R4 Instance.Stop holds the wait group while it stops servers; R6 an exhausted configuration pipe is no input (not an empty Casketfile).",
 		notDecided: "every interleaving claim: that each request gets a complete response from old or new, and 'new after Restart returns' under concurrent load.",
 	})
 }
